@@ -320,7 +320,12 @@ impl<'s, M: Matcher, S: Sink> Core<'s, M, S> {
 
         debug_assert!(!self.config.passthru);
         while !buf[self.pos()..].is_empty() {
-            if self.config.stop_on_nonmatch && self.has_matched {
+            // In inverted mode, the fast path consumes the non-matching line
+            // that ends a run of matching lines without looking at it, so it
+            // cannot stop there. Leave that case to the slow path entirely.
+            if self.config.stop_on_nonmatch
+                && (self.has_matched || self.config.invert_match)
+            {
                 return Ok(SwitchToSlow);
             }
             if self.config.invert_match {
